@@ -8,8 +8,8 @@ import json, os, re, shutil, sys, glob
 NEEDS = {
  "C01/a": "Finished survives the TIME-WAIT teardown that discards unread data: active closer, peer's last data unread for >= 10 s of polled time, then recv",
  "C01/b": "listen() skips reset() on an already CLOSED socket: socket re-used after a connection that ended by RST/abort with residue (island in the reassembler, queued tx data)",
- "C02/a": "(see notes.md)",
- "C02/b": "(see notes.md)",
+ "C02/a": "RTO timer not restarted after a fast retransmit (armed only when the emitted segment moved the send frontier): first of >= 4 segments lost, three duplicate ACKs, the fast retransmission lost too -> data in flight with no timer",
+ "C02/b": "bare FIN only sent when it fits the peer's window: everything acknowledged with window 0 (reader paused with an exactly full buffer), empty transmit buffer, close() -> FIN-WAIT-1 with no deadline",
  "C03/a": "reassembly slot not cleared on expiry: partial datagram, > 60 s, then a complete fragmented datagram of another size",
  "C03/b": "TcpSeqNumber max/min compare raw i32: peer ISN (or own ISN) less than one window below 2^31 -> panic on the handshake ACK / first data",
  "C04/a": "reset() no longer clears the reassembler: out-of-order island left by connection 1, socket re-used, connection 2 reaches the island's offset",
@@ -52,6 +52,7 @@ NEEDS = {
 
 # what had to be strengthened before the property's own check caught the seed (else "")
 STRENGTHENED = {
+ "C02/b": "C02 missed it; tcp2 gained the `exact-fill-rx*` configurations (stream length = 1..3 x the peer's receive buffer)",
  "C01/b": "C01/C02 missed it at first (only C04's socket-reuse prefixes caught it); tcp2 gained the `reuse-after-abort` / `reuse-after-close` configurations (explored connection is the second one on the same sockets)",
  "C06/a": "C06 missed it; address alphabet gained fe80::/10-outside-/64 classes",
  "C06/b": "C06 missed it; ICMPv6/ICMPv4 error data lengths above 1192 added, expected value = data cut to buffer_len",
